@@ -299,7 +299,7 @@ def compare_sinks(observed, expect, file_rec, path, argv, info):
     return probs
 
 
-SNAPKEYS = ("fds", "heap", "envp", "envsum", "cwd", "umask", "sigmask", "sigacts")
+SNAPKEYS = ("fds", "heap", "envp", "envsum", "cwd", "umask", "sigmask", "sigacts", "timers", "rlimits", "comm", "nice", "dumpable", "children", "locale", "termios0", "nthreads")
 
 
 def build_script(ctx, items, warm=True, snap=True):
